@@ -300,6 +300,9 @@ def idx_int(v):
 def getitem(interp, st, o, k, node=None):
     """o[k]; k may be ('slice', lo, hi, step)"""
     from .chars import VChars, chars_getitem
+    from .segs import VSegs, to_vbytes
+    if isinstance(o, VSegs):
+        o = to_vbytes(o)
     if isinstance(o, VChars):
         yield from chars_getitem(interp, st, o, k, node)
         return
@@ -608,6 +611,11 @@ def delitem(interp, st, o, k, node=None):
 def contains(interp, st, container, x, node=None):
     """x in container -> yields (st, VBool | Raise)"""
     from .chars import VChars, to_vstr
+    from .segs import VSegs, to_vbytes
+    if isinstance(container, VSegs):
+        container = to_vbytes(container)
+    if isinstance(x, VSegs):
+        x = to_vbytes(x)
     if isinstance(container, VChars):
         container = to_vstr(container)
     if isinstance(x, VChars):
